@@ -781,8 +781,11 @@ fn run_prec(case: &Case, fmt: u16, sources: &[(char, u8)], n_pragma: usize, corr
     let name = fmt_name(fmt);
     let kinds: String = sources.iter().map(|s| s.0).collect();
     // materialise the sources
-    let mut src_paths = vec![];
+    let mut src_paths: Vec<String> = vec![];
+    // a lower-case kind ('a' / 'd') is source 0 named AGAIN (the same path a second time): it supplies what source 0 supplies
+    let eff = |k: usize| if sources[k].0.is_lowercase() { 0 } else { k };
     for (k, &(kind, mask)) in sources.iter().enumerate() {
+        if kind.is_lowercase() { let p0: String = src_paths[0].clone(); src_paths.push(p0); continue; }
         let supplied: Vec<usize> = (0..2).filter(|j| mask & (1 << j) != 0).collect();
         if kind == 'A' {
             let es: Vec<AEntry> = supplied.iter().map(|&j| { let (w, h, d) = prec_fill(fmt, k, j); AEntry::new(PREC_PATHS[j], fmt, w, h, 0, 0, d) }).collect();
@@ -809,7 +812,7 @@ fn run_prec(case: &Case, fmt: u16, sources: &[(char, u8)], n_pragma: usize, corr
         match suppliers.last() {
             Some(&k) => {
                 script += &entry_src(PREC_PATHS[j], &format!("    img_format: {},\n", fmt_const(fmt)));
-                let (w, h, d) = prec_fill(fmt, k, j);
+                let (w, h, d) = prec_fill(fmt, eff(k), j);
                 expects.push(Expect { path: PREC_PATHS[j].into(), tex: Some((fmt, w, h, d)), label: format!("path{j}:winner=source{k}({})", sources[k].0) });
             },
             None => {
@@ -837,7 +840,7 @@ fn run_prec(case: &Case, fmt: u16, sources: &[(char, u8)], n_pragma: usize, corr
                 let mut got_from = "none".to_string();
                 if let Some(t) = got.get(m.idx).and_then(|e| e.thtx.as_ref()) {
                     for k in 0..sources.len() {
-                        let (w, h, d) = prec_fill(fmt, k, m.idx);
+                        let (w, h, d) = prec_fill(fmt, eff(k), m.idx);
                         if (t.w, t.h) == (w, h) && t.data == d { got_from = format!("source{k}({})", sources[k].0); }
                     }
                     if got_from == "none" { got_from = "unrecognised-bytes".into(); }
@@ -1009,11 +1012,17 @@ fn gen_cases(thorough: bool) -> Vec<Case> {
     for a in &opts { seqs.push(vec![*a]); }
     for a in &opts { for b in &opts { seqs.push(vec![*a, *b]); } }
     for a in &opts { for b in &opts { for c in &opts { seqs.push(vec![*a, *b, *c]); } } }
+    // the same source named twice with another source in between ("-i X -i Y -i X", or pragma X, then -i Y -i X): X wins again
+    for a in &opts { for b in &opts {
+        if a.1 & b.1 == 0 { continue; }
+        seqs.push(vec![*a, *b, (a.0.to_ascii_lowercase(), a.1)]);
+    } }
     for seq in &seqs {
         let n = seq.len();
         let fmts: Vec<u16> = if thorough { KNOWN_FORMATS.to_vec() } else if n <= 2 { vec![F_ARGB8888, F_RGB565] } else { vec![F_ARGB8888] };
         for &fmt in &fmts {
-            let splits: Vec<usize> = if thorough { (0..=n).collect() } else if n <= 2 && fmt == F_ARGB8888 { vec![0, n] } else { vec![0] };
+            let repeated = seq.iter().any(|s| s.0.is_lowercase());
+            let splits: Vec<usize> = if thorough || repeated { (0..=n).collect() } else if n <= 2 && fmt == F_ARGB8888 { vec![0, n] } else { vec![0] };
             if !thorough && fmt != F_ARGB8888 && seq.iter().any(|s| s.1 != 3) { continue; }  // quick: 2nd format only with full suppliers
             for n_pragma in splits { cases.push(Case::Prec { fmt, sources: seq.clone(), n_pragma, corrupt: false }); }
         }
